@@ -38,7 +38,10 @@ Scripts == <<
   << [a |-> "new_zero", c |-> 43], [a |-> "keygen", k |-> "a", aux |-> TRUE], [a |-> "tamper_word"], [a |-> "sign", k |-> "a", aux |-> TRUE],
      [a |-> "tamper_word", s |-> <<1, 5>>], [a |-> "sign", k |-> "a", aux |-> TRUE] >>,
   << [a |-> "new_zero", c |-> 1], [a |-> "keygen", k |-> "a", aux |-> TRUE], [a |-> "pad"], [a |-> "sign", k |-> "a", aux |-> TRUE],
-     [a |-> "new_zero", c |-> 3], [a |-> "keygen", k |-> "a", aux |-> TRUE], [a |-> "nop"], [a |-> "sign", k |-> "a", aux |-> TRUE] >>
+     [a |-> "new_zero", c |-> 3], [a |-> "keygen", k |-> "a", aux |-> TRUE], [a |-> "nop"], [a |-> "sign", k |-> "a", aux |-> TRUE] >>,
+  (* cached nodes damaged AND the buffer cut at / inside its MAC (a buffer without a complete MAC authenticates nothing) *)
+  << [a |-> "new_zero", c |-> 45], [a |-> "keygen", k |-> "a", aux |-> TRUE], [a |-> "tamper_data"], [a |-> "sign", k |-> "a", aux |-> TRUE],
+     [a |-> "truncate"], [a |-> "sign", k |-> "a", aux |-> TRUE], [a |-> "nop"], [a |-> "keygen", k |-> "a", aux |-> TRUE] >>
 >>
 TargetLen == IF sid = 0 THEN WalkLen ELSE Len(Scripts[sid])
 Matches(rec) ==
